@@ -39,7 +39,7 @@ def localFace (M : Mesh) (c f e k : Nat) : List Nat :=
 def facesOk (M : Mesh) : Bool :=
   (List.range' 2 (M.dim - 1)).all fun c => (List.range' 1 (c - 1)).all fun f =>
     (List.range (M.num c)).all fun e => (List.range (faceCount M.kind c f)).all fun k =>
-      setKey (M.num 0) (M.tuple f 0 (M.entry c f e k)) == setKey (M.num 0) (M.localFace c f e k)
+      sameSet (M.tuple f 0 (M.entry c f e k)) (M.localFace c f e k)
 
 /-- no repeated vertex inside an entity, no two entities of one dimension with the same vertex set -/
 def distinctOk (M : Mesh) : Bool :=
@@ -134,5 +134,32 @@ namespace FeatModel.Refine
 def altSum : List Nat → Int
   | [] => 0
   | x :: xs => (x : Int) - altSum xs
+
+end FeatModel.Refine
+
+namespace FeatModel.Refine
+
+/-- twice the signed area of the straight triangle with the vertex tuple `t` -/
+def triArea2 (M : Mesh) (t : List Nat) : Rat :=
+  let x := fun j => coord M (t.getD j 0) 0
+  let y := fun j => coord M (t.getD j 0) 1
+  (x 1 - x 0) * (y 2 - y 0) - (x 2 - x 0) * (y 1 - y 0)
+
+/-- twice the signed area of the bilinear quadrilateral with the vertex tuple `t` (FEAT numbering: 0-1 bottom,
+    2-3 top): cross product of the diagonals; this is `2·∫ det J` of the bilinear map -/
+def quadArea2 (M : Mesh) (t : List Nat) : Rat :=
+  let x := fun j => coord M (t.getD j 0) 0
+  let y := fun j => coord M (t.getD j 0) 1
+  (x 3 - x 0) * (y 2 - y 1) - (x 2 - x 1) * (y 3 - y 0)
+
+/-- one triangle with arbitrary vertex coordinates (edges in their reference orientation) -/
+def triMesh (x0 y0 x1 y1 x2 y2 : Rat) : Mesh :=
+  { kind := .simplex, dim := 2, nums := [3, 3, 1], verts := [[x0, y0], [x1, y1], [x2, y2]],
+    idxData := [[], [[[1, 2], [2, 0], [0, 1]]], [[[0, 1, 2]], [[0, 1, 2]]]] }
+
+/-- one quadrilateral with arbitrary vertex coordinates -/
+def quadMesh (x0 y0 x1 y1 x2 y2 x3 y3 : Rat) : Mesh :=
+  { kind := .hypercube, dim := 2, nums := [4, 4, 1], verts := [[x0, y0], [x1, y1], [x2, y2], [x3, y3]],
+    idxData := [[], [[[0, 1], [2, 3], [0, 2], [1, 3]]], [[[0, 1, 2, 3]], [[0, 1, 2, 3]]]] }
 
 end FeatModel.Refine
